@@ -910,7 +910,11 @@ class PmappingDataframe:
         # df and prune, so if we use it more, we need to use a lower threshold. The
         # max_n_einsums value assumes that absolute_resource_usage_tolerance is only
         # used for joining.
-        if self.drop_valid_reservations:
+        # resource_usage_tolerance is ignored when resource usage is itself an objective
+        # (Metrics.RESOURCE_USAGE set <=> drop_valid_reservations is False); the objective
+        # tolerance then governs the reservation columns, as in make_pmappings_from_templates
+        # and make_tile_shapes.
+        if not self.drop_valid_reservations:
             resource_usage_tolerance = objective_tolerance
 
         new_data = makepareto(
